@@ -1,5 +1,6 @@
 import OpcuaModel.Base.Loop
 import OpcuaModel.Model.ChunkRef
+import OpcuaModel.Model.Uacp
 /-
   Driver for C07: the byte-level chunk model with reference crypto.
 
@@ -29,6 +30,8 @@ import OpcuaModel.Model.ChunkRef
         → ok <seq'> <n> <len>.<flag>.<sizefield>.<sha256> … | err | panic   (`sendSession`: several messages, one instance)
     recvmany <policy> <mode> <maxChunkCount> <maxMessageSize> <localNonce> <remoteNonce> <wirechunk> …
         → <k> <req>.<chan>.<len>.<sha256>|err|panic …                       (`receiveMany`, empty table)
+    frames <rcvBuf> <tcp segment> …
+        → <n> <eof|other> <sha256 of frame 1> …    (`Uacp.receiveAll`: the framing layer on a segmented stream)
     recv <policy> <mode> <maxChunkCount> <maxMessageSize> <localNonce> <remoteNonce> <wirechunk> …
         → ok <req> <chan> <len> <sha256 of body> <leftover> | continue | err | panic   (`receiveAll`, empty table)
 -/
@@ -145,6 +148,15 @@ def handle : List String → String
           resStr r fun o => s!"{o.requestID}.{o.channelID}.{o.body.length}.{sha256Hex o.body}")
       | none => "bad-op"
     | _, _, _, _, _, _ => "bad-op"
+  | "frames" :: rb :: segs =>
+    match rb.toNat?, parseChunks segs with
+    | some rb, some ss =>
+      let r := Uacp.receiveAll rb ss
+      let stop := match r.2 with
+        | .eof => "eof"
+        | _ => "other"
+      s!"{r.1.length} {stop} " ++ " ".intercalate (r.1.map sha256Hex)
+    | _, _ => "bad-op"
   | "recv" :: p :: m :: mcc :: mms :: ln :: rn :: chunks =>
     match modeOf m, mcc.toNat?, mms.toNat?, unhexFast ln, unhexFast rn, parseChunks chunks with
     | some mode, some mcc, some mms, some ln, some rn, some ws =>
